@@ -572,7 +572,12 @@ func genEventsPlan(r *rand.Rand, tier string) *vfPlan {
 		u := map[string]string{"u1": "alice", "u2": "bob"}[s]
 		switch x := r.IntN(100); {
 		case x < 50:
-			add(vfStep{Op: "certgen", Sess: s, User: u, A: pick(r, []string{"", "ssh", "x509", "x509-kubernetes"}), B: pick(r, []string{"user_p256_1", "user_rsa2048_1", "user_ed25519_1"}), D: pick(r, []string{"", "1h"})})
+			st := vfStep{Op: "certgen", Sess: s, User: u, A: pick(r, []string{"", "ssh", "x509", "x509-kubernetes"}), B: pick(r, []string{"user_p256_1", "user_rsa2048_1", "user_ed25519_1"}), D: pick(r, []string{"", "1h"})}
+			if chance(r, 0.08) {
+				// the requester hangs up while the certificate is being sent: it was signed all the same
+				st.L = []string{"writefail"}
+			}
+			add(st)
 		case x < 56 && p.Cfg.AwsRoles:
 			add(vfStep{Op: "awsrole", A: pick(r, []string{"AKIAROLE1", "AKIAROLE1", "AKIAROLE2", "AKIAOTHER"}), B: pick(r, []string{"user_p256_1", "user_rsa2048_1"})})
 		case x < 62:
